@@ -133,13 +133,17 @@ class EnumInfo:
 
 
 class ClassInfo:
-    def __init__(self, fields):
-        """fields: [(name, ty, annotation, class_attribute)]"""
+    def __init__(self, fields, base=None):
+        """fields: [(name, ty, annotation, class_attribute)]; base: a ClassInfo whose class this one derives from
+        (a subclass of a concrete Serializable class serializes the fields IT declares: _fields and __annotations__
+        are per class, so the model's class table entry is the same as for a direct subclass — but every
+        per-class attribute the implementation looks up with hasattr/getattr is inherited)"""
         from mpgameserver.serializable import Serializable
         ns = {"__annotations__": {n: a for n, t, a, d in fields}}
         for n, t, a, d in fields:
             ns[n] = d
-        self.cls = type(fresh("C"), (Serializable,), ns)
+        self.base = base
+        self.cls = type(fresh("C"), (Serializable if base is None else base.cls,), ns)
         self.cid = self.cls.type_id
         self.fields = fields
         assert tuple(self.cls._fields) == tuple(n for n, _, _, _ in fields)
@@ -314,7 +318,16 @@ def gen_family(rng, domain=True):
         for n in names:
             t = gen_ty(rng, fam, domain)
             fields.append((n, t, ann_ty(rng, t), default_for(rng, t, fam)))
-        fam.classes.append(ClassInfo(fields))
+        base = None
+        if fam.classes and rng.random() < 0.3:
+            base = rng.choice(fam.classes)          # derive from an earlier class of the family (converted first, as a rule)
+            taken = {n for n, _, _, _ in base.fields}
+            b = base.base
+            while b is not None:
+                taken |= {n for n, _, _, _ in b.fields}
+                b = b.base
+            fields = [f for f in fields if f[0] not in taken]
+        fam.classes.append(ClassInfo(fields, base))
     return fam
 
 
